@@ -89,6 +89,7 @@ type FT struct {
 	abstractions  map[string]int
 	trusted       map[string]bool
 	collect       bool // pass 1: only collect loop write sets
+	rg            bool // rely/guarantee tier: other requests act between two store/Lightning calls
 	loopWrites    map[*ssa.BasicBlock]map[string][]writeRec
 	usedFns       map[string]bool
 	entry         State
